@@ -63,8 +63,8 @@ package tools
 //@ func CopyWithCallback
 //@   assumed
 //@   props C02 C01 C08
-//@   at call io.Copy:1 assert arg0__ == writer && arg1__ == reader
-//@   at call io.Copy:2 assert arg0__ == writer && ptr_as(arg1__, "github.com/git-lfs/git-lfs/v3/tools.CallbackReader") == cbReader && cbReader.Reader == reader
+//@   at call io.Copy:1 assert arg0__ == old(writer) && arg1__ == old(reader)
+//@   at call io.Copy:2 assert arg0__ == old(writer) && ptr_as(arg1__, "github.com/git-lfs/git-lfs/v3/tools.CallbackReader") == cbReader && cbReader.Reader == old(reader)
 //@   modifies ghost lastcopy, ghost wbuf, ghost rrest, ghost fdata[fpath(copy_target(writer))]
 //@   ensures result1 == nil && dyntype(writer, "*os.File") && dyntype(reader, "*github.com/git-lfs/git-lfs/v3/tools.HashingReader") && old(rrest(writer)) == "" ==> fdata(fpath(ptr_as(writer, "os.File"))) == scat(old(fdata(fpath(ptr_as(writer, "os.File")))), lastcopy()) && wbuf(ptr_as(reader, "github.com/git-lfs/git-lfs/v3/tools.HashingReader").hasher) == scat(old(wbuf(ptr_as(reader, "github.com/git-lfs/git-lfs/v3/tools.HashingReader").hasher)), lastcopy())
 //@   ensures result1 == nil ==> rrest(writer) == ""
